@@ -1,6 +1,6 @@
 """C15 — alignment transformations keep the alignment well formed and the residues intact; WUSS round trips.
 Model: lean/EaselModel/Msa/*, theorems: Props/C15.lean, harness: h_msaops.c, tables: translate/c15_abc_tables.py"""
-import struct, string
+import os, struct, string
 from vlib.engine import Prop, Failure, SAN_FLAGS
 from translate import c15_abc_tables
 
@@ -218,7 +218,8 @@ class C15(Prop):
         "wuss2ct_iff_class_labelling", "wussReverse_pairs", "reverseComplement_ss_pairs",
         "columnSubset_ok_of_few_pk", "reasonableRF_cons_shape_partial", "wussNopseudo_pairs", "wussFull_total", "flushLeftInserts_inplace", "kh_roundtrip_pairs", "transformed_wellformed", "generated_wf_side_conditions",
         # round 6
-        "reasonableRF_cons_no_alphabet", "reasonableRF_cons_digital", "reasonableRF_cons_text_eq_digital", "reasonableRF_cons_text_shape", "generated_text_cells", "reasonableRF_threshold_exact")]
+        "reasonableRF_cons_no_alphabet", "reasonableRF_cons_digital", "reasonableRF_cons_text_eq_digital", "reasonableRF_cons_text_shape", "generated_text_cells", "reasonableRF_threshold_exact",
+        "setStr_frame", "setStr_stores", "formatStr_is_setStr", "markFragments_threshold_exact", "sample_wellformed")]
     claimed = True
     technique = ("Lean 4 proof about an executable hand model of esl_msa.c / esl_wuss.c (in-place compaction loop = filter-by-mask on every aligned field, well-formedness invariants, "
                  "tag-table rebuild of SequenceSubset, mode-conversion and reverse-complement identities over alphabet tables regenerated from the tree, 27-stack WUSS reader = 27 Dyck recognisers, "
@@ -267,7 +268,7 @@ class C15(Prop):
                    "with an alphabet lent by the harness and only on rows whose letters belong to it (a foreign letter makes esl_abc_FCount read degen[255]: caller contract, model = fault, not generated)",
                    "esl_sq.c: FetchFromMSA, Digitize, Textize, ReverseComplement, ConvertDegen2X are modelled on the observable content of the sequence object (name/acc/desc/source, residues, ss, extra "
                    "markup, start/end, mode)",
-                   "not modelled: esl_msa_Sample, esl_msa_GuessAlphabet, esl_msa_Format* (printf wrappers over the modelled Set*), esl_msa_Expand/Sizeof, esl_sq_Copy/Compare/Grow/Block*/CountResidues/Checksum"]
+                   "esl_msa_Sample is modelled over an arbitrary source of 32-bit words (driver: the Mersenne Twister model of C09), its double comparisons esl_random() < 0.1 / 0.02 / 0.7 as exact integer thresholds on the raw word; esl_msa_Set*/Format* are modelled with sqalloc = nseq (true of every alignment the library hands out); not modelled: esl_msa_GuessAlphabet, esl_msa_Expand/Sizeof, esl_sq_Copy/Compare/Grow/Block*/CountResidues/Checksum"]
     rule = ("cases = construction of a random annotated alignment + chain of transformations with a full dump after each, or WUSS conversions; "
             "non-trivial = at least two successful operations and no fault; distinct by implementation output trace")
     quick_budget_s = 60
@@ -282,7 +283,30 @@ class C15(Prop):
             ABC[nm] = (int(K), int(Kp), "".join(chr(int(x)) for x in lines[k + 1].split()[1:]))
             DEGEN[nm] = ([[c == "1" for c in row] for row in lines[k + 4].split()[1:]], [int(x) for x in lines[k + 5].split()[1:]])
             INMAP[nm] = [int(x) for x in lines[k + 2].split()[1:]]
-        return {"EaselModel/Msa/AbcTables.lean": c15_abc_tables.to_lean(txt)}
+        return {"EaselModel/Msa/AbcTables.lean": c15_abc_tables.to_lean(txt),
+                "EaselModel/Msa/SampleConsts.lean": self.sample_consts(ctx)}
+
+    def sample_consts(self, ctx):
+        """the probabilities and the name length of esl_msa_Sample, read from the working tree; `esl_random(rng) < p` is a comparison of
+        x / 2^32 (exact in binary64) with the binary64 p, i.e. x < ceil(p * 2^32) on the raw 32-bit word x"""
+        import re, math
+        from fractions import Fraction
+        src = open(os.path.join(ctx.src, "esl_msa.c")).read()
+        body = src[src.index("\nesl_msa_Sample("):]
+        body = body[:body.index("\n}\n")]
+        def dbl(name):
+            m = re.search(r"double\s+%s\s*=\s*([0-9.eE+-]+)\s*;" % name, body)
+            if not m: raise RuntimeError("esl_msa_Sample: no 'double %s = <literal>;'" % name)
+            return math.ceil(Fraction(float(m.group(1))) * 2 ** 32)
+        m = re.search(r"int\s+maxn\s*=\s*(\d+)\s*;", body)
+        if not m: raise RuntimeError("esl_msa_Sample: no 'int maxn = <literal>;'")
+        return ("/-! GENERATED on every run by props/c15.py from esl_msa_Sample() of the working tree. Do not edit. -/\n"
+                "namespace EaselModel.Msa.Gen\n"
+                "/-- `esl_random(rng) < pgap` iff the raw word is below this -/\ndef thrGap : Nat := %d\n"
+                "/-- `esl_random(rng) < pdegen` -/\ndef thrDegen : Nat := %d\n"
+                "/-- `esl_random(rng) < pcons` -/\ndef thrCons : Nat := %d\n"
+                "/-- `maxn`: longest sampled name -/\ndef sampleMaxName : Nat := %d\n"
+                "end EaselModel.Msa.Gen\n" % (dbl("pgap"), dbl("pdegen"), dbl("pcons"), int(m.group(1))))
 
     def canonical(self, line):
         if line.startswith("fault"): return "fault"
@@ -323,13 +347,15 @@ class C15(Prop):
         s[i] = rng.choice("<>()[]{}AaBbZz" + "x!\x7f ")
         return "".join(s)
 
-    def rand_alignment(self, rng, big=False):
+    def rand_alignment(self, rng, big=False, nseq_fix=None, alen_fix=None):
         mode = rng.choice(["text", "text", "rna", "rna", "dna", "amino"])
         nseq = rng.choice([1, 2, 3, 5, 8, rng.randrange(1, 31)])
         alen = rng.choice([1, 2, 3, 5, 10, 30, rng.randrange(1, 12), rng.randrange(1, 60), rng.randrange(1, 80)])
         if big:
             alen = rng.choice([rng.randrange(100, 201), rng.randrange(150, 201), 200, 199, 128, 129])
             nseq = rng.choice([1, 2, 3, rng.randrange(1, 9), rng.randrange(1, 31) if rng.random() < 0.2 else 4])
+        if nseq_fix is not None: nseq = nseq_fix
+        if alen_fix is not None: alen = alen_fix
         if mode == "amino": res = "ACDEFGHIKLMNPQRSTVWYBJZOUX"
         elif mode == "dna": res = "ACGTRYMKSWHBVDN"
         elif mode == "rna": res = "ACGURYMKSWHBVDN"
@@ -338,7 +364,7 @@ class C15(Prop):
         allgap = [rng.random() < 0.2 for _ in range(alen)]
         rows = []
         for i in range(nseq):
-            lo = rng.randrange(0, alen) if rng.random() < 0.3 else 0
+            lo = rng.randrange(0, alen) if alen and rng.random() < 0.3 else 0
             hi = rng.randrange(lo, alen + 1) if rng.random() < 0.3 else alen
             r = []
             for c in range(alen):
@@ -401,6 +427,10 @@ class C15(Prop):
         order = [(t, i) for t in grtags for i in range(nseq) if rng.random() < 0.5]
         rng.shuffle(order)
         for t, i in order: ops.append("gr tag=%s i=%d v=%s" % (hx(t), i, hx(rs(alen))))
+        if alen == 0:      # zero columns: no aligned annotation (an empty line cannot be told from an absent one through the setters)
+            import re
+            ops = [re.sub(r" (ss|sa|pp|ss_cons|sa_cons|pp_cons|rf|mm)=-", "", o) for o in ops if not o.startswith(("gc ", "gr "))]
+            ops = [o for o in ops if o != "col"]
         return mode, nseq, alen, rows, ops
 
     def rand_mask(self, rng, n):
@@ -410,8 +440,10 @@ class C15(Prop):
         p = rng.choice([0.1, 0.5, 0.9])
         return "".join("1" if rng.random() < p else "0" for _ in range(n))
 
-    def msa_case(self, rng, idx, big=False):
-        mode, nseq, alen, rows, ops = self.rand_alignment(rng, big)
+    def msa_case(self, rng, idx, big=False, nseq_fix=None, alen_fix=None, steps=(1, 6), hist=False):
+        """hist: a long history (>= 4 transformations of the same object, mode switches in between, the rarely chained operations
+        ReasonableRF / SetDefaultWeights / ConvertDegen2X / SymConvert among them) at the allocation boundaries of the per-sequence arrays"""
+        mode, nseq, alen, rows, ops = self.rand_alignment(rng, big, nseq_fix, alen_fix)
         sticky = len(ops)
         fk = rng.randrange(0, nseq) if rng.random() < 0.9 else rng.choice([nseq, nseq + 1, -1])
         ops += ["dump", "validate", "fetch i=%d" % fk]
@@ -421,9 +453,20 @@ class C15(Prop):
         def cmask(n_hint):
             m = self.rand_mask(rng, rng.choice([n_hint, n_hint, 1, 2, 3, 7, 13]) or 1)
             return (m or "1") + " cyc=1"
-        for _ in range(rng.randrange(1, 6)):
+        for _ in range(rng.randrange(*steps)):
             r = rng.random()
             gaps = rng.choice(["-_.~", "-.", "-", "-_.~*", "".join(rng.sample("-_.~*xN", rng.randrange(1, 5)))])
+            if hist and rng.random() < 0.25:
+                q = rng.random()
+                if q < 0.4:
+                    lend = "" if digital else rng.choice(["", " abc=" + (mode if mode != "text" else rng.choice(["rna", "dna"]))])
+                    ops += ["dump", "reasonablerf symfrac=" + dbits(rng.choice([0.5, 0.0, 1.0, 0.3, rng.random()])) + rng.choice(["", " cons=1" + lend])]
+                elif q < 0.55: ops += ["defwgts", "dump", "validate"]
+                elif q < 0.75 and digital: ops += ["degen2x", "dump", "validate"]
+                elif q < 0.9 and not digital: ops += ["symconvert old=%s new=%s" % (hx(rng.choice(["-.", "_~", "acgu", "N"])), hx(rng.choice(["-", "."]))), "dump", "validate"]
+                elif q < 0.95: ops += ["dump", "checksum", "hash", "uniq"]
+                else: ops += ["dump", self.rand_setstr(rng, nseq), "dump", "validate"]
+                continue
             if r < 0.03:
                 ops += ["rbb mask=" + cmask(alen), "dump", "validate"]      # esl_msa_RemoveBrokenBasepairs called directly
             elif r < 0.2:
@@ -449,7 +492,8 @@ class C15(Prop):
                 if digital: ops += ["textize", "dump", "validate", "digitize abc=" + mode, "dump"]
                 else:
                     ops += ["digitize abc=" + (mode if mode != "text" and rng.random() < 0.8 else rng.choice(["rna", "dna", "amino"])), "dump", "validate"]
-                    if mode == "text": break
+                    if mode == "text" and not hist: break
+                    if mode == "text": ops += ["textize", "dump", "validate"]
             elif r < 0.89:
                 if mode in ("rna", "dna") and digital or rng.random() < 0.15: ops += ["revcomp", "dump", "validate", "revcomp", "dump"]
             elif r < 0.93:
@@ -516,7 +560,7 @@ class C15(Prop):
         for _ in range(rng.randrange(1, 5)):
             r = rng.random()
             if r < 0.7:
-                t = self.tweak(rng, mode, nseq, alen, rows, digital, ops)
+                t = self.tweak(rng, mode, nseq, alen, rows, digital, ops) if rng.random() < 0.8 else ["dump", self.rand_setstr(rng, nseq)]
                 if not t: continue
                 ops += t + ["dump", "compare", "cmpmand", "cmpopt", "checksum"]
                 if rng.random() < 0.3: ops += ["swap", "dump", "dump w=b", "compare"]      # the comparison in the other direction
@@ -612,6 +656,55 @@ class C15(Prop):
                 ops.append("%s ct=%s" % (rng.choice(["ct2wuss", "ct2simple"]), ",".join(map(str, ct[1:])) or "-"))
         return {"name": "wuss%d" % idx, "ops": ops, "sticky": 0}
 
+    def wuss_edge_case(self, rng, idx):
+        """odd and even lengths for every WUSS routine, pairing symbols at the first, the last and the exact centre column; every
+        routine applied ONCE to the same string (exact comparison with the model, pair monitors), then esl_msa_ReverseComplement on an
+        alignment carrying the string as SS_cons and as per-sequence SS (dump after the single application)"""
+        n = rng.choice([1, 2, 3, 4, 5, 6, 7, 8, 9, 10, 11, 15, 16, 17, 31, 32, 33, 63, 64, 65, 127, 128, 129, rng.randrange(1, 40), rng.randrange(1, 200)])
+        def build():
+            s = [rng.choice(":,_-.~") for _ in range(n)]
+            spots = [0, n - 1, n // 2, (n - 1) // 2, n // 2 - 1 if n >= 2 else 0, n // 2 + 1 if n // 2 + 1 < n else n - 1]
+            spots = list(dict.fromkeys(x for x in spots if 0 <= x < n))
+            rng.shuffle(spots)
+            free = [i for i in range(n)]
+            kinds = ["<>", "()", "[]", "{}", "Aa", "Bb", "Zz"]
+            style = rng.random()
+            for sp in spots[:rng.randrange(1, len(spots) + 1)]:
+                if s[sp] not in ":,_-.~": continue
+                k = rng.choice(kinds)
+                if style < 0.75:      # balanced: give the spot a partner
+                    cand = [i for i in range(n) if i != sp and s[i] in ":,_-.~"]
+                    if not cand: s[sp] = rng.choice(k); continue
+                    o = rng.choice([c for c in cand if c in spots] or cand) if rng.random() < 0.5 else rng.choice(cand)
+                    a, b = min(sp, o), max(sp, o)
+                    s[a], s[b] = k[0], k[1]
+                else: s[sp] = rng.choice(k)      # a lone pairing symbol: unbalanced
+            return "".join(s)
+        s = build()
+        if rng.random() < 0.3:
+            t = self.rand_struct(rng, n, pk_letters=rng.choice([0, 1, 3]), p_pair=0.9)
+            c = n // 2
+            if t[c] in ":,_-.~" and n >= 3: t = s
+            s = t
+        kh = s.replace("<", "\0").replace(">", "<").replace("\0", ">")
+        ops = ["wussrev ss=%s inplace=0" % hx(s), "wussrev ss=%s inplace=1" % hx(s), "nopseudo ss=%s inplace=%d" % (hx(s), rng.randrange(2)),
+               "wussfull ss=%s inplace=%d" % (hx(s), rng.randrange(2)), "wuss2kh ss=%s inplace=%d" % (hx(s), rng.randrange(2)),
+               "kh2wuss ss=%s inplace=%d" % (hx(kh), rng.randrange(2)), "wuss2ct ss=" + hx(s), "roundtrip ss=" + hx(s),
+               "rbbss ss=%s mask=%s" % (hx(s), self.rand_mask(rng, n) or "-")]
+        p = wuss_pairs(s)
+        if p is not None:
+            ct = [0] * (n + 1)
+            for i, j in p: ct[i + 1] = j + 1; ct[j + 1] = i + 1
+            ops += ["ct2wuss ct=" + (",".join(map(str, ct[1:])) or "-"), "ct2simple ct=" + (",".join(map(str, ct[1:])) or "-")]
+        rng.shuffle(ops)
+        s2 = build()
+        nseq = rng.choice([1, 2, 3])
+        ops += ["new nseq=%d alen=%d" % (nseq, n)]
+        for i in range(nseq):
+            ops.append("sq i=%d seq=%s%s" % (i, hx("".join(rng.choice("ACGU-") for _ in range(n))), " ss=" + hx(s2 if i else s) if rng.random() < 0.7 else ""))
+        ops += ["col ss_cons=" + hx(s), "digitize abc=" + rng.choice(["rna", "dna"]), "dump", "revcomp", "dump", "validate", "revcomp", "dump"]
+        return {"name": "wedge%d" % idx, "ops": ops, "sticky": 0}
+
     def corpus(self, ctx):
         c = [
             # regression: once read rb[26] (fixed by c4d52a3); must be eslEINVAL "not enough letters", never a fault
@@ -636,6 +729,16 @@ class C15(Prop):
                                                               "reasonablerf symfrac=" + dbits(1.0) + " cons=1 abc=dna", "reasonablerf symfrac=" + dbits(0.5) + " cons=1 abc=amino",
                                                               "reasonablerf symfrac=" + dbits(0.5) + " cons=0 abc=rna", "digitize abc=rna", "dump", "reasonablerf symfrac=" + dbits(0.5) + " cons=1",
                                                               "textize", "dump", "reasonablerf symfrac=" + dbits(0.5) + " cons=1", "reasonablerf symfrac=" + dbits(0.5) + " cons=1 abc=rna"], "sticky": 4},
+            # regression (fixed by 5db1eba): erasing a description that was never there once allocated an empty sqdesc[] (esl_msa_Compare with the
+            # identical clone then failed); the Format twins never freed the emptied array
+            {"name": "setseq-null-erasure-witness", "ops": ["new nseq=2 alen=4", "sq i=0 seq=" + hx("ACGU"), "sq i=1 seq=" + hx("AC-U"), "clone", "setstr f=sqdesc i=0 v=~ n=-1",
+                                                           "dump", "dump w=b", "compare", "setstr f=sqacc i=1 v=~ n=-1", "dump", "compare",
+                                                           "fmtstr f=sqdesc i=1 v=" + hx("x") + " k=1", "fmtstr f=sqdesc i=1 v=~", "dump", "compare", "fmtstr f=sqacc i=0 v=" + hx("y") + " k=2", "fmtstr f=sqacc i=0 v=~",
+                                                           "dump", "compare"], "sticky": 4},
+            {"name": "setstr-basics", "ops": ["new nseq=2 alen=4", "sq i=0 seq=" + hx("ACGU"), "sq i=1 seq=" + hx("AC-U"), "dump", "setstr f=name v=" + hx("family one") + " n=6", "dump",
+                                             "setstr f=sqname i=1 v=" + hx("seqB") + " n=-1", "dump", "setstr f=sqname i=2 v=" + hx("x") + " n=-1", "dump", "setstr f=sqname i=0 v=~ n=-1", "dump",
+                                             "fmtstr f=sqname i=2 v=" + hx("x") + " k=1", "dump", "fmtstr f=sqacc i=1 v=" + hx("AC") + " k=-7", "dump", "fmtstr f=desc v=" + hx("d") + " k=0", "dump",
+                                             "setstr f=desc v=~ n=-1", "dump", "setstr f=sqdesc i=0 v=" + hx("hello world") + " n=5", "dump", "setstr f=sqdesc i=1 v=" + hx("") + " n=0", "dump", "validate"], "sticky": 3},
             {"name": "sq-basics", "ops": ["new nseq=1 alen=6", "sq i=0 seq=" + hx("AC-UnX") + " ss=" + hx("<.>..."), "dump", "fetch i=0 keep=1", "sqdump", "sqrevcomp", "sqdump", "sqrevcomp", "sqdump",
                                           "sqdigitize abc=rna", "sqdump", "sqdegen2x", "sqdump", "sqrevcomp", "sqdump", "sqtextize", "sqdump", "sqdigitize abc=amino", "sqdump", "sqrevcomp", "sqdump"], "sticky": 2},
             {"name": "compare-basics", "ops": ["new nseq=2 alen=3", "sq i=0 seq=" + hx("ACG") + " wgt=" + dbits(1.0), "sq i=1 seq=" + hx("A-G") + " wgt=" + dbits(2.0), "col name=" + hx("x") + " haswgts=1",
@@ -655,6 +758,11 @@ class C15(Prop):
         for i in range(n_wuss): out.append(self.wuss_case(rng, i, 300 if (quick and i % 6) else 2000))
         for i in range(1500 if quick else 20000): out.append(self.cmp_case(rng, i))
         for i in range(1000 if quick else 15000): out.append(self.sq_case(rng, i))
+        for i in range(600 if quick else 10000): out.append(self.wuss_edge_case(rng, i))
+        for i in range(300 if quick else 5000): out.append(self.sample_case(rng, i))
+        for i in range(400 if quick else 6000):
+            c = self.msa_case(rng, i, nseq_fix=rng.choice([1, 2, 15, 16, 17, 31, 32, 33, 33]), alen_fix=rng.choice([0, 1, 1, 2, 3, 5, 9, 16, 17]), steps=(4, 10), hist=True)
+            c["name"] = "hist%d" % i; out.append(c)
         hist = {}
         for c in out:
             for o in c["ops"]:
@@ -679,6 +787,8 @@ class C15(Prop):
         sqst = {"cur": None, "pend": None}      # last sqdump of the kept sequence, pending conversion
         prevA = None
         pending = None    # (op words, dump of A before)
+        pendset = None    # a Set* / Format* call waiting for the next dump of A
+        sampled = None    # arguments of an esl_msa_Sample call waiting for the next dump of A
         for op, l in zip(ops, out):
             w = op.split(); kv = dict(x.split("=", 1) for x in w[1:] if "=" in x)
             name = w[0]
@@ -692,6 +802,10 @@ class C15(Prop):
                     f = self.check_b(pending, A, B)
                 else:
                     f = self.check_a(pending, A, d, l)
+                    if not f and pendset: f = self.check_setstr(pendset, l)
+                    pendset = None
+                    if not f and sampled: f = self.check_sample(sampled, d)
+                    sampled = None
                     prevA, A = A, d; freshA = True
                     A.line = l
                     if pending and pending[0][0] not in ("seqsubset", "clone", "copy", "markfrag"): pending = None
@@ -709,8 +823,15 @@ class C15(Prop):
                 if l != "ok": continue
                 A, B = B, A; pending = None; freshA, freshB = freshB, freshA
                 if A is not None and not hasattr(A, "line"): A.line = None
-            elif name in ("new", "sq", "col", "cut", "comment", "gf", "gs", "gc", "gr", "clr", "clrcut"):
+            elif name == "sample":
+                freshA = False; pending = None; pendset = None
+                if l != "ok": return Failure("monitor", "esl_msa_Sample failed: " + l)
+                sampled = kv
+            elif name in ("setstr", "fmtstr"):
+                pendset = (name, kv, l, A.line if (freshA and A is not None and A.ok and not pendset) else None, A.nseq if A is not None and A.ok else None)
                 freshA = False; pending = None
+            elif name in ("new", "sq", "col", "cut", "comment", "gf", "gs", "gc", "gr", "clr", "clrcut"):
+                freshA = False; pending = None; pendset = None
             elif name in ("compare", "cmpmand", "cmpopt"):
                 if l == "bad-op": continue
                 if "repinv=ok" not in l: return Failure("monitor", "an optional per-sequence array is allocated but empty (model assumption of esl_msa_Compare broken): " + l)
@@ -908,6 +1029,86 @@ class C15(Prop):
                 return None
         st["rc_prev"] = None
         return None
+
+    def check_setstr(self, pendset, after):
+        """esl_msa_Set* / esl_msa_Format*: exactly the named field (of the named sequence) is replaced by the first n bytes of the
+        string (resp. the formatted string); NULL erases an optional field; every other field, name, weight and annotation stays
+        where it was; idx >= nseq or a NULL sequence name is refused (exception) and nothing changes"""
+        name, kv, st, before, nseq = pendset
+        if st == "bad-op" or before is None: return None
+        v = kv.get("v"); val = None if v in (None, "~") else (b"" if v == "-" else bytes.fromhex(v))
+        i = int(kv.get("i", 0)); f = kv["f"]
+        if name == "setstr":
+            n = int(kv.get("n", -1)); new = None if val is None else (val[:n] if n >= 0 else val); errst = "einconceivable exception"
+        else:
+            new = None if val is None else val + b"|" + str(int(kv.get("k", 0))).encode(); errst = "einval exception"
+        what = "esl_msa_%s(%s)" % ("Set*" if name == "setstr" else "Format*", f)
+        if f.startswith("sq") and (i >= nseq or (f == "sqname" and new is None)):
+            if st != errst: return Failure("monitor", "%s with idx >= nseq or a NULL name: %s, expected %s" % (what, st, errst))
+            if after != before: return Failure("monitor", what + " failed but changed the alignment")
+            return None
+        if st != "ok": return Failure("monitor", what + " failed: " + st)
+        enc = "~" if new is None else ("-" if new == b"" else new.hex())
+        toks = before.split(); seen = -1
+        for k, t in enumerate(toks):
+            if f.startswith("sq"):
+                if t.startswith("sq="):
+                    seen += 1
+                    if seen == i:
+                        p = t[3:].split(","); p[{"sqname": 0, "sqacc": 3, "sqdesc": 4}[f]] = enc; toks[k] = "sq=" + ",".join(p)
+            elif t.startswith(f + "="): toks[k] = f + "=" + enc; break
+        if " ".join(toks) != after:
+            return Failure("monitor", "%s: the alignment afterwards is not the alignment before with exactly that field replaced by %r" % (what, new))
+        return None
+
+    def check_sample(self, kv, d):
+        """esl_msa_Sample: a digital alignment of 1..max_nseq sequences and 1..max_alen columns, every cell a residue or the gap code
+        (never missing data / nonresidue), names non-empty graphic words that do not start with punctuation, an RF line of x and '.',
+        weights 1.0 without the HASWGTS flag, nothing else"""
+        K, Kp, _ = ABC[kv["abc"]]
+        if not d.digital or d.abc != kv["abc"] or d.flags != 2: return Failure("monitor", "esl_msa_Sample: not a plain digital alignment of the requested alphabet")
+        if not (1 <= d.nseq <= int(kv["maxn"]) and 1 <= d.alen <= int(kv["maxa"])): return Failure("monitor", "esl_msa_Sample: %d x %d outside 1..%s x 1..%s" % (d.nseq, d.alen, kv["maxn"], kv["maxa"]))
+        for q in d.sq:
+            if any(not (x <= K or K < x < Kp - 2) for x in q["row"]): return Failure("monitor", "esl_msa_Sample: a cell that is neither residue nor gap")
+            nm = q["name"]
+            if not nm or len(nm) > 30 or any(not (0x21 <= c <= 0x7e) for c in nm) or not chr(nm[0]).isalnum(): return Failure("monitor", "esl_msa_Sample: bad name %r" % nm)
+            if bits2d(q["wgt"]) != 1.0 or any(q[k] is not None for k in ("acc", "desc", "ss", "sa", "pp")): return Failure("monitor", "esl_msa_Sample: weight or annotation set")
+        if d.rf is None or any(c not in b"x." for c in d.rf): return Failure("monitor", "esl_msa_Sample: RF line %r" % d.rf)
+        if any(getattr(d, k) is not None for k in ("ss_cons", "sa_cons", "pp_cons", "mm", "name", "desc", "acc", "au")) or d.gc or d.gr or d.gs or d.gf or d.comment:
+            return Failure("monitor", "esl_msa_Sample: annotation it does not document")
+        return None
+
+    def sample_case(self, rng, idx):
+        """esl_msa_Sample (Mersenne Twister of C09, arbitrary seed) followed by a history of transformations of the sampled alignment"""
+        abc = rng.choice(["rna", "dna", "amino"])
+        ops = ["sample seed=%d abc=%s maxn=%d maxa=%d" % (rng.choice([1, 42, rng.randrange(1, 2 ** 32)]), abc, rng.choice([1, 2, 5, 16, 17, 32, 33, 40]), rng.choice([1, 2, 5, 30, 100, 200])),
+               "dump", "validate", "checksum", "uniq"]
+        digital = True
+        for _ in range(rng.randrange(2, 7)):
+            r = rng.random()
+            if r < 0.2: ops += ["colsubset mask=%s cyc=1" % (self.rand_mask(rng, rng.choice([1, 2, 3, 7, 13])) or "1"), "dump", "validate"]
+            elif r < 0.35: ops += ["minimgaps gaps=%s rf=%d" % (hx("-_.~"), rng.randrange(2)), "dump", "validate"]
+            elif r < 0.45: ops += ["seqsubset mask=1%s cyc=1" % self.rand_mask(rng, rng.choice([1, 2, 5])), "dump w=b", "validate w=b", "dump", "swap", "dump"]
+            elif r < 0.6:
+                if digital: ops += ["textize", "dump", "validate"]
+                else: ops += ["digitize abc=" + abc, "dump", "validate"]
+                digital = not digital
+            elif r < 0.7 and digital and abc != "amino": ops += ["revcomp", "dump", "validate"]
+            elif r < 0.8 and digital: ops += ["flushleft", "dump", "validate"]
+            elif r < 0.9: ops += ["dump", "reasonablerf symfrac=" + dbits(rng.choice([0.5, 0.3, 1.0])) + (" cons=1" if rng.random() < 0.5 else "") + ("" if digital else " abc=" + abc)]
+            else: ops += [rng.choice(["clone", "copy"]), "dump w=b", "compare"]
+        return {"name": "sample%d" % idx, "ops": ops, "sticky": 1}
+
+    def rand_setstr(self, rng, nseq):
+        f = rng.choice(["name", "desc", "acc", "au", "sqname", "sqname", "sqacc", "sqacc", "sqdesc", "sqdesc"])
+        i = rng.randrange(nseq) if rng.random() < 0.9 else rng.choice([nseq, nseq + 1, nseq + 17])
+        val = "".join(rng.choice(string.ascii_letters + string.digits + " _-./|%") for _ in range(rng.choice([0, 1, 2, 5, 9, 16, 17, 40])))
+        if f in ("sqname",): val = val.replace(" ", "_")
+        v = "~" if rng.random() < 0.15 else hx(val)
+        if rng.random() < 0.5:
+            n = -1 if v == "~" or rng.random() < 0.4 else rng.choice([0, 1, len(val), max(0, len(val) - 1), len(val) // 2])
+            return "setstr f=%s i=%d v=%s n=%d" % (f, i, v, min(n, len(val)))
+        return "fmtstr f=%s i=%d v=%s k=%d" % (f, i, v, rng.choice([0, 7, -3, 123456, 2147483647, -2147483648]))
 
     def check_rf(self, d, sbits, l, use_cons=False, lent=None):
         """esl_msa_ReasonableRF(msa, symfrac, useconsseq): 'x' (or, with useconsseq, the symbol of the canonical residue with the
